@@ -239,6 +239,47 @@ fn known_findings(verif: &Path) -> Vec<(String, String, String)> {
     out
 }
 
+/// Which characterised findings (`finding: property=C06 id=KF1 :: ...`) the committed file lists.
+fn known_ids(verif: &Path) -> oracle::Known {
+    let mut k = oracle::Known::default();
+    if let Ok(text) = std::fs::read_to_string(verif.join("known_findings.txt")) {
+        for line in text.lines() {
+            let line = line.trim();
+            if let Some(rest) = line.strip_prefix("finding:") {
+                let spec = rest.split("::").next().unwrap_or("");
+                if spec.split_whitespace().any(|t| t == format!("property={PROPERTY}")) {
+                    for tok in spec.split_whitespace() {
+                        match tok {
+                            "id=KF1" => k.kf1 = true,
+                            "id=KF2" => k.kf2 = true,
+                            _ => {}
+                        }
+                    }
+                }
+            }
+        }
+    }
+    k
+}
+
+fn known_descriptions(verif: &Path) -> BTreeMap<String, String> {
+    let mut m = BTreeMap::new();
+    if let Ok(text) = std::fs::read_to_string(verif.join("known_findings.txt")) {
+        for line in text.lines() {
+            if let Some(rest) = line.trim().strip_prefix("finding:") {
+                if let Some((spec, desc)) = rest.split_once("::") {
+                    for tok in spec.split_whitespace() {
+                        if let Some(id) = tok.strip_prefix("id=") {
+                            m.insert(id.to_string(), desc.trim().to_string());
+                        }
+                    }
+                }
+            }
+        }
+    }
+    m
+}
+
 fn write_replay(verif: &Path, rf: &ReplayFile) -> PathBuf {
     let dir = verif.join("replays");
     let _ = std::fs::create_dir_all(&dir);
@@ -362,7 +403,7 @@ fn cmd_replay(args: &Args) -> i32 {
         println!("not reproduced: O5 holds on this tree");
         return 0;
     }
-    let ctx = Arc::new(PoolCtx::new(rf.pool.clone()));
+    let ctx = Arc::new(PoolCtx::new(rf.pool.clone(), known_ids(&env_path("VERIF_DIR", "/verif"))));
     let dirs = make_real_dirs(&ctx.images);
     let mut sim = new_sim(&ctx, &dirs, "replay");
     if let Err(m) = sim.calibrate() {
@@ -434,6 +475,7 @@ fn cmd_run(args: &Args) -> i32 {
         }
     };
     let mut out_counters = Counters::default();
+    let mut sweep_counters = Counters::default();
     let mut signatures: BTreeSet<u64> = BTreeSet::new();
     let mut interleavings: BTreeSet<(u32, u32, u32)> = BTreeSet::new();
     let mut v0_bits: Vec<u64> = Vec::new();
@@ -463,7 +505,7 @@ fn cmd_run(args: &Args) -> i32 {
         for img in &sh.pool {
             *pool_classes.entry(img.class.clone()).or_default() += 1;
         }
-        let ctx = Arc::new(PoolCtx::new(sh.pool));
+        let ctx = Arc::new(PoolCtx::new(sh.pool, known_ids(&verif)));
         v0_len = ctx.images[0].len();
         let dirs = make_real_dirs(&ctx.images);
 
@@ -504,6 +546,7 @@ fn cmd_run(args: &Args) -> i32 {
             }
             distinct_tables_swept = seen_tables.len();
             let c = sim.counters();
+            sweep_counters = c.clone();
             model_probes += c.get(C::o4_model_probes);
             diff_probes += c.get(C::o4_differential_probes);
         }
@@ -774,6 +817,25 @@ fn cmd_run(args: &Args) -> i32 {
         lines.push(format!("VIOLATION property={PROPERTY} replay={replay}"));
     }
     lines.dedup();
+    let descs = known_descriptions(&verif);
+    let kf_hits = [
+        ("KF1", out_counters.get(C::kf1_hits) + sweep_counters.get(C::kf1_hits)),
+        (
+            "KF2",
+            out_counters.get(C::kf2_roundtrip_hits)
+                + out_counters.get(C::kf2_backstep_hits)
+                + sweep_counters.get(C::kf2_roundtrip_hits)
+                + sweep_counters.get(C::kf2_backstep_hits),
+        ),
+    ];
+    for (id, hits) in kf_hits {
+        if hits > 0 {
+            lines.push(format!(
+                "KNOWN-FINDING: property={PROPERTY} {id} {} [{hits} probe(s) in this run fell into the characterised set]",
+                descs.get(id).cloned().unwrap_or_default()
+            ));
+        }
+    }
 
     // Premise audit (informational).
     let arep = audit::run(&repo, &verif.join("properties.jsonl"));
@@ -862,6 +924,13 @@ fn cmd_run(args: &Args) -> i32 {
                 "distinct_tables_fully_swept_pm40s": distinct_tables_swept,
                 "model_probes_total": model_probes,
                 "differential_probes_total": diff_probes,
+                "o6_conversion_full_sweeps": sweep_counters.get(C::o6_full_sweeps),
+                "o6_utc_instants_probed": sweep_counters.get(C::o6_utc_probes),
+                "o6_tai_instants_probed": sweep_counters.get(C::o6_tai_probes),
+            },
+            "known_finding_hits": {
+                "KF1": kf_hits[0].1,
+                "KF2": kf_hits[1].1,
             },
             "event_log_hash_combined": format!("{combined:016x}"),
             "determinism_pairs_checked": args.det_pairs,
